@@ -52,7 +52,7 @@ const WEIRD_NAMES: [&str; 10] = [
 pub fn gen_plan(rng: &mut Prng) -> DotPlan {
     let named = rng.coin();
     // one run in twelve exports a big diagram (7-10 variables, hundreds of nodes)
-    let nvars = if rng.chance(1, 12) { rng.range(7, 10) } else { rng.range(1, 6) };
+    let nvars = if rng.chance(1, 30) { rng.range(7, 10) } else { rng.range(1, 6) };
     let mut names: Vec<String> = fast::NAME_POOL.iter().map(|s| s.to_string()).collect();
     rng.shuffle(&mut names);
     names.truncate(nvars);
